@@ -391,7 +391,7 @@ def op_add_column(ctx, setitem=False):
         res = None
     except Exception as e:
         res = exc_name(e)
-        if not _raised_in(e, "unit_from_dtype"):
+        if _raised_in_assignment(e):
             # `df[name] = values` itself was refused by pandas: nothing reached pdtable
             ctx.out.count("pandas_refused_assignment:" + res["exc"])
             return f"add_column({name!r},{kind}) -> pandas {res['exc']}"
@@ -408,6 +408,16 @@ def op_add_column(ctx, setitem=False):
     else:
         ctx.assigned.pop(name, None)
     return desc
+
+
+def _raised_in_assignment(e):
+    """did pdtable.frame.add_column fail in its first statement `df[name] = values` (pandas refusing the values),
+    as opposed to afterwards (register edit: `df[name].dtype`, unit_from_dtype)?"""
+    import traceback
+    for fr in traceback.extract_tb(e.__traceback__):
+        if fr.name == "add_column" and fr.filename.endswith("frame.py"):
+            return (fr.line or "").replace(" ", "").startswith("df[name]=values")
+    return True
 
 
 def _raised_in(e, func_name):
